@@ -44,6 +44,19 @@ def gen_links(rng, nlinks=None, tiny=False):
     return out
 
 
+def with_mux(rng, links, p=0.2):
+    """the link ops, some of them followed by a `mux` op: a foreign logical stream interleaved page by page with that link (grouped
+    streams are legal Ogg; the foreign stream may end after the Vorbis stream does, so the link's last page is not the file's)"""
+    out = []
+    for l in links:
+        out.append(l)
+        if rng.random() < p:
+            t = gen_links(rng, 1, tiny=True)[0].split(" ")
+            t[6] = str(100000 + int(t[6]))          # its own serial number range (500000+seed%100000 in the harness)
+            out.append("mux " + " ".join(t[1:]))
+    return out
+
+
 def serial_of(seed):
     """the serial number the harness gives the link made from this seed (as ov_serialnumber reports it: sign-extended 32 bits)"""
     return seed - (1 << 31) if seed % 5 == 3 else 1000 + seed % 100000
